@@ -142,9 +142,15 @@ theorem mu_loadTake (c : Cfg) (s : State) (h : enabled c s .loadTake = true) :
   | nil => simp [ht] at h3
   | cons x rest =>
     have hi : s.infl = none := by simpa using h1
-    simp only [step, ht, mu_def, hi]
-    simp
-    omega
+    cases hp : perrOf x with
+    | none =>
+      simp only [step, ht, hp, mu_def, hi]
+      simp
+      omega
+    | some e =>
+      simp only [step, ht, hp, mu_def, hi]
+      simp
+      omega
 
 theorem mu_loadPut (c : Cfg) (s : State) (h : enabled c s .loadPut = true) :
     mu c (step c s .loadPut) < mu c s := by
@@ -301,6 +307,9 @@ def elemOuts : Option ItemSpec → List Nat
 def elemErrs : Option ItemSpec → List Nat
   | some x => x.err.toList
   | none => []
+def elemPerrs : Option ItemSpec → List Nat
+  | some x => x.perr.toList
+  | none => []
 def wOuts : W → List Nat
   | .run _ p _ => p
   | _ => []
@@ -346,6 +355,7 @@ structure Inv (c : Cfg) (s : State) : Prop where
   ev     : s.main = .waitEvent → s.event = false → s.ws[0]? = some W.spawned
   outC   : ∀ o, outTotal o s = sumOver (fun x => x.outs.count o) c.items
   errC   : ∀ e, errTotal e s = sumOver (fun x => x.err.toList.count e) c.items
+             + (if s.lphase then s.lexc.toList.count e else 0)
   lph0   : s.lphase = false → (∀ x ∈ s.inq, x ≠ none) ∧ (∀ x ∈ s.todo, x ≠ none) ∧ s.infl ≠ some none
   lph1   : s.lphase = true → (∀ x ∈ s.todo, x = none) ∧ (∀ x, s.infl = some x → x = none)
   sorted : sortedQ s.inq
@@ -358,10 +368,16 @@ structure Inv (c : Cfg) (s : State) : Prop where
   q      : s.active = true → s.nprocs = 0 → none ∈ s.outq
   fin    : s.active = false → s.abandoned = false →
              s.nprocs = 0 ∧ (s.excs = [] →
-               (∀ o, s.recv.count o = sumOver (fun x => x.outs.count o) c.items) ∧ ∀ x ∈ c.items, x.err = none)
+               (∀ o, s.recv.count o = sumOver (fun x => x.outs.count o) c.items) ∧ ∀ x ∈ c.items, x.err = none ∧ x.perr = none)
   maxk   : 0 < c.m → ∀ (w : Nat) k p e, s.ws[w]? = some (W.run k p e) → k ≤ c.m
   aband  : s.abandoned = true → s.active = false
-  drops  : s.active = true → s.dropIn = [] ∧ s.dropOut = []
+  drops  : s.active = true → (s.lexc = none → s.dropIn = []) ∧ s.dropOut = []
+  perrC  : ∀ e, sumOver (fun x => (elemPerrs x).count e) (inSide s)
+             = sumOver (fun x => x.perr.toList.count e) c.items
+  pick   : (∀ x ∈ s.inq, perrOf x = none) ∧ (∀ x, s.infl = some x → perrOf x = none)
+  lexcIn : s.lphase = true → ∀ e, s.lexc = some e → e ∈ s.excs
+  lexc0  : s.lphase = false → ∀ e, s.lexc = some e → s.todo = []
+  lexcOk : ∀ e, s.lexc = some e → 0 < sumOver (fun x => x.perr.toList.count e) c.items
 
 theorem sortedQ_tail {x} {r : List (Option ItemSpec)} (h : sortedQ (x :: r)) : sortedQ r := by
   cases x with
@@ -441,6 +457,7 @@ theorem mem_dropLast_of_tail {α} (x : α) (r : List α) (y : α) (h : y ∈ r.d
   | cons z zs => simp [List.dropLast] at h ⊢; right; exact h
 
 
+
 /-! ### the invariant is inductive -/
 
 theorem get_set {l : List W} {w : Nat} {old : W} (h : l[w]? = some old) (x : W) (w' : Nat) :
@@ -480,7 +497,7 @@ theorem oCount_none (o : Nat) (q : List (Option Nat)) (h : ∀ x ∈ q, x = none
 
 theorem inv_init' (c : Cfg) (hn : 0 < c.n) : Inv c (init c) := by
   refine { npos := hn, len := by simp [init], np := ?_, ev := ?_, outC := ?_, errC := ?_, lph0 := ?_, lph1 := ?_,
-           sorted := trivial, pois := ?_, pills := ?_, opill := ?_, olast := ?_, q := ?_, fin := ?_, maxk := ?_, aband := ?_, drops := ?_ }
+           sorted := trivial, pois := ?_, pills := ?_, opill := ?_, olast := ?_, q := ?_, fin := ?_, maxk := ?_, aband := ?_, drops := ?_, perrC := ?_, pick := ?_, lexcIn := ?_, lexc0 := ?_, lexcOk := ?_ }
   · simp [init, sumOver_replicate, alive]
   · intro _ _
     simp only [init]
@@ -509,44 +526,117 @@ theorem inv_init' (c : Cfg) (hn : 0 < c.n) : Inv c (init c) := by
     simp [init] at this
   · simp [init]
   · intro _; simp [init]
+  · intro e
+    simp [init, inSide, sumOver_map, elemPerrs]
+  · simp [init]
+  · intro h; simp [init] at h
+  · intro _ e h; simp [init] at h
+  · intro e h; simp [init] at h
+
+theorem elemPerrs_of_perrOf_none (x : Option ItemSpec) (h : perrOf x = none) : elemPerrs x = [] := by
+  cases x with
+  | none => rfl
+  | some it => simp [perrOf] at h; simp [elemPerrs, h]
 
 theorem inv_loadTake (c : Cfg) (s : State) (hI : Inv c s) (h : enabled c s .loadTake = true) :
     Inv c (step c s .loadTake) := by
   simp only [enabled, Bool.and_eq_true] at h
   obtain ⟨⟨h1, h2⟩, h3⟩ := h
   have hi : s.infl = none := by simpa using h1
+  have hst : s.stopped = false := by simpa using h2
+  have hact : s.active = true := by
+    simp only [State.active, State.stopped] at hst ⊢
+    cases hm : s.main <;> simp_all
   cases ht : s.todo with
   | nil => simp [ht] at h3
   | cons x rest =>
-  simp only [step, ht]
-  refine { npos := hI.npos, len := hI.len, np := hI.np, ev := hI.ev, outC := ?_, errC := ?_, lph0 := ?_, lph1 := ?_,
-           sorted := hI.sorted, pois := hI.pois, pills := ?_, opill := hI.opill, olast := hI.olast, q := hI.q,
-           fin := hI.fin, maxk := hI.maxk, aband := hI.aband, drops := hI.drops }
-  · intro o
-    have := hI.outC o
-    simp only [outTotal, inSide, hi, ht] at this ⊢
-    simp at this ⊢; omega
-  · intro e
-    have := hI.errC e
-    simp only [errTotal, inSide, hi, ht] at this ⊢
-    simp at this ⊢; omega
-  · intro hl
-    have := hI.lph0 hl
-    simp only [ht] at this
-    refine ⟨this.1, fun y hy => this.2.1 y (by simp [hy]), ?_⟩
-    simp
-    exact this.2.1 x (by simp)
-  · intro hl
-    have := hI.lph1 hl
-    simp only [ht] at this
-    refine ⟨fun y hy => this.1 y (by simp [hy]), ?_⟩
-    intro y hy
-    simp at hy; subst hy
-    exact this.1 x (by simp)
-  · intro ha hl
-    have := hI.pills ha hl
-    simp only [hi, ht] at this ⊢
-    simp at this ⊢; omega
+  cases hp : perrOf x with
+  | none =>
+    simp only [step, ht, hp]
+    refine { npos := hI.npos, len := hI.len, np := hI.np, ev := hI.ev, outC := ?_, errC := ?_, lph0 := ?_, lph1 := ?_,
+             sorted := hI.sorted, pois := hI.pois, pills := ?_, opill := hI.opill, olast := hI.olast, q := hI.q,
+             fin := hI.fin, maxk := hI.maxk, aband := hI.aband, drops := hI.drops, perrC := ?_, pick := ?_, lexcIn := hI.lexcIn, lexc0 := ?_, lexcOk := hI.lexcOk }
+    · intro o
+      have := hI.outC o
+      simp only [outTotal, inSide, hi, ht] at this ⊢
+      simp at this ⊢; omega
+    · intro e
+      have := hI.errC e
+      simp only [errTotal, inSide, hi, ht] at this ⊢
+      simp at this ⊢; omega
+    · intro hl
+      have := hI.lph0 hl
+      simp only [ht] at this
+      refine ⟨this.1, fun y hy => this.2.1 y (by simp [hy]), ?_⟩
+      simp
+      exact this.2.1 x (by simp)
+    · intro hl
+      have := hI.lph1 hl
+      simp only [ht] at this
+      refine ⟨fun y hy => this.1 y (by simp [hy]), ?_⟩
+      intro y hy
+      simp at hy; subst hy
+      exact this.1 x (by simp)
+    · intro ha hl
+      have := hI.pills ha hl
+      simp only [hi, ht] at this ⊢
+      simp at this ⊢; omega
+    · intro e
+      have := hI.perrC e
+      simp only [inSide, hi, ht] at this ⊢
+      simp at this ⊢; omega
+    · refine ⟨hI.pick.1, ?_⟩
+      intro y hy
+      simp at hy; subst hy; exact hp
+    · intro hl e he
+      have := hI.lexc0 hl e he
+      rw [ht] at this; simp at this
+  | some e0 =>
+    simp only [step, ht, hp]
+    have hxs : ∃ it, x = some it ∧ it.perr = some e0 := by
+      cases x with
+      | none => simp [perrOf] at hp
+      | some it => exact ⟨it, rfl, by simpa [perrOf] using hp⟩
+    obtain ⟨it, hx, hit⟩ := hxs
+    have hl : s.lphase = false := by
+      cases hl : s.lphase with
+      | false => rfl
+      | true =>
+        have := (hI.lph1 hl).1 x (by rw [ht]; simp)
+        rw [hx] at this; simp at this
+    refine { npos := hI.npos, len := hI.len, np := hI.np, ev := hI.ev, outC := ?_, errC := ?_, lph0 := ?_, lph1 := ?_,
+             sorted := hI.sorted, pois := hI.pois, pills := ?_, opill := hI.opill, olast := hI.olast, q := hI.q,
+             fin := hI.fin, maxk := hI.maxk, aband := hI.aband, drops := ?_, perrC := ?_, pick := hI.pick, lexcIn := ?_, lexc0 := ?_, lexcOk := ?_ }
+    · intro o
+      have := hI.outC o
+      simp only [outTotal, inSide, hi, ht] at this ⊢
+      simp at this ⊢; omega
+    · intro e
+      have := hI.errC e
+      simp only [errTotal, inSide, hi, ht, hl] at this ⊢
+      simp at this ⊢; omega
+    · intro _
+      have := hI.lph0 hl
+      exact ⟨this.1, by simp, by simp [hi]⟩
+    · intro hl'; rw [hl] at hl'; simp at hl'
+    · intro _ hl'; rw [hl] at hl'; simp at hl'
+    · intro _
+      refine ⟨by simp, (hI.drops hact).2⟩
+    · intro e
+      have := hI.perrC e
+      simp only [inSide, hi, ht] at this ⊢
+      simp at this ⊢; omega
+    · intro hl'; rw [hl] at hl'; simp at hl'
+    · intro _ _ _; rfl
+    · intro e he
+      simp at he; subst he
+      have := hI.perrC e0
+      have hmem : x ∈ inSide s := by simp [inSide, ht]
+      have h2 := sumOver_le_of_mem (fun x => (elemPerrs x).count e0) (inSide s) x hmem
+      rw [hx] at h2
+      have h3 : (elemPerrs (some it)).count e0 = 1 := by simp [elemPerrs, hit]
+      simp only [h3] at h2
+      omega
 
 theorem inv_loadPut (c : Cfg) (s : State) (hI : Inv c s) (h : enabled c s .loadPut = true) :
     Inv c (step c s .loadPut) := by
@@ -557,7 +647,7 @@ theorem inv_loadPut (c : Cfg) (s : State) (hI : Inv c s) (h : enabled c s .loadP
   simp only [step, hi]
   refine { npos := hI.npos, len := hI.len, np := hI.np, ev := hI.ev, outC := ?_, errC := ?_, lph0 := ?_, lph1 := ?_,
            sorted := ?_, pois := ?_, pills := ?_, opill := hI.opill, olast := hI.olast, q := hI.q,
-           fin := hI.fin, maxk := hI.maxk, aband := hI.aband, drops := hI.drops }
+           fin := hI.fin, maxk := hI.maxk, aband := hI.aband, drops := hI.drops, perrC := ?_, pick := ?_, lexcIn := hI.lexcIn, lexc0 := hI.lexc0, lexcOk := hI.lexcOk }
   · intro o
     have := hI.outC o
     simp only [outTotal, inSide, hi] at this ⊢
@@ -600,6 +690,16 @@ theorem inv_loadPut (c : Cfg) (s : State) (hI : Inv c s) (h : enabled c s .loadP
     have := hI.pills ha hl
     simp only [hi] at this ⊢
     simp at this ⊢; omega
+  · intro e
+    have := hI.perrC e
+    simp only [inSide, hi] at this ⊢
+    simp at this ⊢; omega
+  · refine ⟨?_, by simp⟩
+    intro y hy
+    simp at hy
+    rcases hy with hy | hy
+    · exact hI.pick.1 y hy
+    · subst hy; exact hI.pick.2 _ hi
 
 theorem inv_loadFinish (c : Cfg) (s : State) (hI : Inv c s) (h : enabled c s .loadFinish = true) :
     Inv c (step c s .loadFinish) := by
@@ -610,22 +710,26 @@ theorem inv_loadFinish (c : Cfg) (s : State) (hI : Inv c s) (h : enabled c s .lo
   simp only [step]
   refine { npos := hI.npos, len := hI.len, np := hI.np, ev := hI.ev, outC := ?_, errC := ?_, lph0 := ?_, lph1 := ?_,
            sorted := hI.sorted, pois := ?_, pills := ?_, opill := hI.opill, olast := hI.olast, q := hI.q,
-           fin := hI.fin, maxk := hI.maxk, aband := hI.aband, drops := ?_ }
+           fin := ?_, maxk := hI.maxk, aband := hI.aband, drops := ?_, perrC := ?_, pick := hI.pick, lexcIn := ?_, lexc0 := ?_, lexcOk := hI.lexcOk }
   · intro o
     have := hI.outC o
     simp only [outTotal, inSide, hi] at this ⊢
     simp [sumOver_replicate, elemOuts] at this ⊢; omega
   · intro e
     have := hI.errC e
-    simp only [errTotal, inSide, hi] at this ⊢
-    simp [sumOver_replicate, elemErrs] at this ⊢; omega
+    simp only [errTotal, inSide, hi, hl] at this ⊢
+    simp [sumOver_replicate, elemErrs, List.count_append] at this ⊢; omega
   · intro h'; simp at h'
   · intro _
     refine ⟨?_, by simp [hi]⟩
     intro y hy
     simp at hy; exact hy.2
   · intro w hw
-    have := (hI.pois w hw).1
+    have hw' : (∃ e, s.ws[w]? = some (W.exited true e)) ∨ (s.ws[w]? = some W.dead ∧ s.excs = []) := by
+      rcases hw with hw | ⟨hd, hex⟩
+      · exact Or.inl hw
+      · simp at hex; exact Or.inr ⟨hd, hex.1⟩
+    have := (hI.pois w hw').1
     rw [hl] at this; simp at this
   · intro ha _
     simp only [hi]
@@ -633,6 +737,12 @@ theorem inv_loadFinish (c : Cfg) (s : State) (hI : Inv c s) (h : enabled c s .lo
     have h1 := sumOver_mono needy alive s.ws alive_le_needy
     have := hI.np
     omega
+  · intro ha hab
+    have := hI.fin ha hab
+    refine ⟨this.1, ?_⟩
+    intro hex
+    simp at hex
+    exact this.2 hex.1
   · intro ha
     have hd := hI.drops ha
     have hst : s.stopped = false := by
@@ -640,8 +750,17 @@ theorem inv_loadFinish (c : Cfg) (s : State) (hI : Inv c s) (h : enabled c s .lo
       cases hm : s.main <;> simp_all
     rcases h3 with h3 | h3
     · have : s.todo = [] := by simpa using h3
-      simp [hd.1, hd.2, this]
+      refine ⟨?_, hd.2⟩
+      intro hlx; simp [hd.1 hlx, this]
     · rw [hst] at h3; simp at h3
+  · intro e
+    have := hI.perrC e
+    simp only [inSide, hi] at this ⊢
+    simp [sumOver_replicate, elemPerrs] at this ⊢; omega
+  · intro _ e he
+    have he : s.lexc = some e := he
+    simp [he]
+  · intro h'; simp at h'
 
 theorem inv_mEvent (c : Cfg) (s : State) (hI : Inv c s) (h : enabled c s .mEvent = true) :
     Inv c (step c s .mEvent) := by
@@ -651,7 +770,7 @@ theorem inv_mEvent (c : Cfg) (s : State) (hI : Inv c s) (h : enabled c s .mEvent
   simp only [step]
   refine { npos := hI.npos, len := hI.len, np := hI.np, ev := ?_, outC := hI.outC, errC := hI.errC, lph0 := hI.lph0, lph1 := hI.lph1,
            sorted := hI.sorted, pois := hI.pois, pills := ?_, opill := hI.opill, olast := hI.olast, q := ?_,
-           fin := ?_, maxk := hI.maxk, aband := ?_, drops := ?_ }
+           fin := ?_, maxk := hI.maxk, aband := ?_, drops := ?_, perrC := hI.perrC, pick := hI.pick, lexcIn := hI.lexcIn, lexc0 := hI.lexc0, lexcOk := hI.lexcOk }
   · intro h'; simp at h'
   · intro _ hl; exact hI.pills hact hl
   · intro _ h0; exact hI.q hact h0
@@ -666,7 +785,7 @@ theorem inv_cAbandon (c : Cfg) (s : State) (hI : Inv c s) (h : enabled c s .cAba
   simp only [step]
   refine { npos := hI.npos, len := hI.len, np := hI.np, ev := ?_, outC := hI.outC, errC := hI.errC, lph0 := hI.lph0, lph1 := hI.lph1,
            sorted := hI.sorted, pois := hI.pois, pills := ?_, opill := hI.opill, olast := hI.olast, q := ?_,
-           fin := ?_, maxk := hI.maxk, aband := ?_, drops := ?_ }
+           fin := ?_, maxk := hI.maxk, aband := ?_, drops := ?_, perrC := hI.perrC, pick := hI.pick, lexcIn := hI.lexcIn, lexc0 := hI.lexc0, lexcOk := hI.lexcOk }
   · intro h'; simp at h'
   · intro h'; simp [State.active] at h'
   · intro h'; simp [State.active] at h'
@@ -682,7 +801,7 @@ theorem inv_mDone (c : Cfg) (s : State) (hI : Inv c s) (h : enabled c s .mDone =
   simp only [step]
   refine { npos := hI.npos, len := hI.len, np := hI.np, ev := ?_, outC := hI.outC, errC := hI.errC, lph0 := hI.lph0, lph1 := hI.lph1,
            sorted := hI.sorted, pois := hI.pois, pills := ?_, opill := hI.opill, olast := hI.olast, q := ?_,
-           fin := ?_, maxk := hI.maxk, aband := ?_, drops := ?_ }
+           fin := ?_, maxk := hI.maxk, aband := ?_, drops := ?_, perrC := hI.perrC, pick := hI.pick, lexcIn := hI.lexcIn, lexc0 := hI.lexc0, lexcOk := hI.lexcOk }
   · intro h'; simp at h'
   · intro h'; simp [State.active] at h'
   · intro h'; simp [State.active] at h'
@@ -701,7 +820,7 @@ theorem inv_drainIn (c : Cfg) (s : State) (hI : Inv c s) (h : enabled c s .drain
   simp only [step, hq]
   refine { npos := hI.npos, len := hI.len, np := hI.np, ev := hI.ev, outC := ?_, errC := ?_, lph0 := ?_, lph1 := hI.lph1,
            sorted := ?_, pois := ?_, pills := ?_, opill := hI.opill, olast := hI.olast, q := ?_,
-           fin := hI.fin, maxk := hI.maxk, aband := hI.aband, drops := ?_ }
+           fin := hI.fin, maxk := hI.maxk, aband := hI.aband, drops := ?_, perrC := ?_, pick := ?_, lexcIn := hI.lexcIn, lexc0 := hI.lexc0, lexcOk := hI.lexcOk }
   · intro o
     have := hI.outC o
     simp only [outTotal, inSide, hq] at this ⊢
@@ -722,6 +841,11 @@ theorem inv_drainIn (c : Cfg) (s : State) (hI : Inv c s) (h : enabled c s .drain
   · intro h'; rw [State.active] at h' hact; simp_all
   · intro h'; rw [State.active] at h' hact; simp_all
   · intro h'; rw [State.active] at h' hact; simp_all
+  · intro e
+    have := hI.perrC e
+    simp only [inSide, hq] at this ⊢
+    simp at this ⊢; omega
+  · refine ⟨fun y hy => hI.pick.1 y (by rw [hq]; simp [hy]), hI.pick.2⟩
 
 theorem inv_drainOut (c : Cfg) (s : State) (hI : Inv c s) (h : enabled c s .drainOut = true) :
     Inv c (step c s .drainOut) := by
@@ -734,7 +858,7 @@ theorem inv_drainOut (c : Cfg) (s : State) (hI : Inv c s) (h : enabled c s .drai
   simp only [step, hq]
   refine { npos := hI.npos, len := hI.len, np := hI.np, ev := hI.ev, outC := ?_, errC := hI.errC, lph0 := hI.lph0, lph1 := hI.lph1,
            sorted := hI.sorted, pois := hI.pois, pills := ?_, opill := ?_, olast := ?_, q := ?_,
-           fin := hI.fin, maxk := hI.maxk, aband := hI.aband, drops := ?_ }
+           fin := hI.fin, maxk := hI.maxk, aband := hI.aband, drops := ?_, perrC := hI.perrC, pick := hI.pick, lexcIn := hI.lexcIn, lexc0 := hI.lexc0, lexcOk := hI.lexcOk }
   · intro o
     have := hI.outC o
     simp only [outTotal, inSide, hq, oCount] at this ⊢
@@ -761,7 +885,7 @@ theorem inv_cGet (c : Cfg) (s : State) (hI : Inv c s) (h : enabled c s .cGet = t
     simp only [step, hq]
     refine { npos := hI.npos, len := hI.len, np := hI.np, ev := hI.ev, outC := ?_, errC := hI.errC, lph0 := hI.lph0, lph1 := hI.lph1,
              sorted := hI.sorted, pois := hI.pois, pills := hI.pills, opill := ?_, olast := ?_, q := ?_,
-             fin := ?_, maxk := hI.maxk, aband := hI.aband, drops := hI.drops }
+             fin := ?_, maxk := hI.maxk, aband := hI.aband, drops := hI.drops, perrC := hI.perrC, pick := hI.pick, lexcIn := hI.lexcIn, lexc0 := hI.lexc0, lexcOk := hI.lexcOk }
     · intro o'
       have := hI.outC o'
       simp only [outTotal, inSide, hq, oCount] at this ⊢
@@ -791,7 +915,7 @@ theorem inv_cGet (c : Cfg) (s : State) (hI : Inv c s) (h : enabled c s .cGet = t
         exact absurd rfl this
     refine { npos := hI.npos, len := hI.len, np := hI.np, ev := ?_, outC := ?_, errC := hI.errC, lph0 := hI.lph0, lph1 := hI.lph1,
              sorted := hI.sorted, pois := hI.pois, pills := ?_, opill := ?_, olast := ?_, q := ?_,
-             fin := ?_, maxk := hI.maxk, aband := ?_, drops := ?_ }
+             fin := ?_, maxk := hI.maxk, aband := ?_, drops := ?_, perrC := hI.perrC, pick := hI.pick, lexcIn := hI.lexcIn, lexc0 := hI.lexc0, lexcOk := hI.lexcOk }
     · intro h'; simp at h'
     · intro o'
       have := hI.outC o'
@@ -816,7 +940,14 @@ theorem inv_cGet (c : Cfg) (s : State) (hI : Inv c s) (h : enabled c s .cGet = t
           subst this; simp
       have hp := hI.pois 0 (Or.inr ⟨h0w, hex⟩)
       have hl1 := hI.lph1 hp.1
-      have hd := hI.drops hact
+      have hlx : s.lexc = none := by
+        cases hlx : s.lexc with
+        | none => rfl
+        | some e1 =>
+          have := hI.lexcIn hp.1 e1 hlx
+          rw [hex] at this; simp at this
+      have hd0 := hI.drops hact
+      have hd : s.dropIn = [] ∧ s.dropOut = [] := ⟨hd0.1 hlx, hd0.2⟩
       have hwo : ∀ o', sumOver (fun w => (wOuts w).count o') s.ws = 0 := by
         intro o'
         rw [sumOver_eq_zero]
@@ -851,15 +982,28 @@ theorem inv_cGet (c : Cfg) (s : State) (hI : Inv c s) (h : enabled c s .cGet = t
         simp at this
         exact this
       · intro x hx
-        cases he : x.err with
-        | none => rfl
-        | some e =>
-          have := hI.errC e
-          simp only [errTotal, hwe, hie, hex] at this
-          have h2 := sumOver_le_of_mem (fun x => x.err.toList.count e) c.items x hx
-          simp only [he] at h2
-          simp at h2 this
-          omega
+        constructor
+        · cases he : x.err with
+          | none => rfl
+          | some e =>
+            have := hI.errC e
+            simp only [errTotal, hwe, hie, hex, hlx] at this
+            have h2 := sumOver_le_of_mem (fun x => x.err.toList.count e) c.items x hx
+            simp only [he] at h2
+            simp at h2 this
+            omega
+        · cases he : x.perr with
+          | none => rfl
+          | some e =>
+            have := hI.perrC e
+            have hip : sumOver (fun x => (elemPerrs x).count e) (inSide s) = 0 := by
+              rw [sumOver_eq_zero]
+              intro y hy; rw [hin y hy]; simp [elemPerrs]
+            rw [hip] at this
+            have h2 := sumOver_le_of_mem (fun x => x.perr.toList.count e) c.items x hx
+            simp only [he] at h2
+            simp at h2
+            omega
     · intro hab
       simp [State.active]
     · intro h'; simp [State.active] at h'
@@ -870,7 +1014,7 @@ theorem inv_wBegin (c : Cfg) (s : State) (w : Nat) (hI : Inv c s) (h : enabled c
   simp only [step]
   refine { npos := hI.npos, len := by simp [hI.len], np := ?_, ev := ?_, outC := ?_, errC := ?_, lph0 := hI.lph0, lph1 := hI.lph1,
            sorted := hI.sorted, pois := ?_, pills := ?_, opill := hI.opill, olast := hI.olast, q := hI.q,
-           fin := hI.fin, maxk := ?_, aband := hI.aband, drops := hI.drops }
+           fin := hI.fin, maxk := ?_, aband := hI.aband, drops := hI.drops, perrC := hI.perrC, pick := hI.pick, lexcIn := hI.lexcIn, lexc0 := hI.lexc0, lexcOk := hI.lexcOk }
   · have := wsums hw (.run 0 [] none) alive
     have := hI.np
     simp [alive] at *; omega
@@ -911,7 +1055,7 @@ theorem inv_wPut (c : Cfg) (s : State) (w : Nat) (hI : Inv c s) (h : enabled c s
   refine { npos := hI.npos, len := by simp [hI.len], np := ?_, ev := ev_set hI hw (by simp) _, outC := ?_, errC := ?_,
            lph0 := hI.lph0, lph1 := hI.lph1,
            sorted := hI.sorted, pois := ?_, pills := ?_, opill := ?_, olast := ?_, q := ?_,
-           fin := hI.fin, maxk := ?_, aband := hI.aband, drops := hI.drops }
+           fin := hI.fin, maxk := ?_, aband := hI.aband, drops := hI.drops, perrC := hI.perrC, pick := hI.pick, lexcIn := hI.lexcIn, lexc0 := hI.lexc0, lexcOk := hI.lexcOk }
   · have := wsums hw (.run k pend e) alive
     have := hI.np
     simp [alive] at *; omega
@@ -962,7 +1106,7 @@ theorem inv_wRaise (c : Cfg) (s : State) (w : Nat) (hI : Inv c s) (h : enabled c
   refine { npos := hI.npos, len := by simp [hI.len], np := ?_, ev := ev_set hI hw (by simp) _, outC := ?_, errC := ?_,
            lph0 := hI.lph0, lph1 := hI.lph1,
            sorted := hI.sorted, pois := ?_, pills := ?_, opill := hI.opill, olast := hI.olast, q := hI.q,
-           fin := hI.fin, maxk := ?_, aband := hI.aband, drops := hI.drops }
+           fin := hI.fin, maxk := ?_, aband := hI.aband, drops := hI.drops, perrC := hI.perrC, pick := hI.pick, lexcIn := hI.lexcIn, lexc0 := hI.lexc0, lexcOk := hI.lexcOk }
   · have := wsums hw (.exited false (some e)) alive
     have := hI.np
     simp [alive] at *; omega
@@ -1000,7 +1144,7 @@ theorem inv_wRetire (c : Cfg) (s : State) (w : Nat) (hI : Inv c s) (h : enabled 
   refine { npos := hI.npos, len := by simp [hI.len], np := ?_, ev := ev_set hI hw (by simp) _, outC := ?_, errC := ?_,
            lph0 := hI.lph0, lph1 := hI.lph1,
            sorted := hI.sorted, pois := ?_, pills := ?_, opill := hI.opill, olast := hI.olast, q := hI.q,
-           fin := hI.fin, maxk := ?_, aband := hI.aband, drops := hI.drops }
+           fin := hI.fin, maxk := ?_, aband := hI.aband, drops := hI.drops, perrC := hI.perrC, pick := hI.pick, lexcIn := hI.lexcIn, lexc0 := hI.lexc0, lexcOk := hI.lexcOk }
   · have := wsums hw (.exited false none) alive
     have := hI.np
     simp [alive] at *; omega
@@ -1040,7 +1184,7 @@ theorem inv_wGet (c : Cfg) (s : State) (w : Nat) (hI : Inv c s) (h : enabled c s
     refine { npos := hI.npos, len := by simp [hI.len], np := ?_, ev := ev_set hI hw (by simp) _, outC := ?_, errC := ?_,
              lph0 := ?_, lph1 := hI.lph1,
              sorted := ?_, pois := ?_, pills := ?_, opill := hI.opill, olast := hI.olast, q := hI.q,
-             fin := hI.fin, maxk := ?_, aband := hI.aband, drops := hI.drops }
+             fin := hI.fin, maxk := ?_, aband := hI.aband, drops := hI.drops, perrC := ?_, pick := ?_, lexcIn := hI.lexcIn, lexc0 := hI.lexc0, lexcOk := hI.lexcOk }
     · have := wsums hw (.run (k+1) x.outs x.err) alive
       have := hI.np
       simp [alive] at *; omega
@@ -1080,6 +1224,13 @@ theorem inv_wGet (c : Cfg) (s : State) (w : Nat) (hI : Inv c s) (h : enabled c s
         omega
       · simp only [hww, if_false] at hr
         exact hI.maxk hm w' k' p' e' hr
+    · intro e'
+      have := hI.perrC e'
+      have hpk := hI.pick.1 (some x) (by rw [hq]; simp)
+      have hx0 : x.perr = none := by simpa [perrOf] using hpk
+      simp only [inSide, hq] at this ⊢
+      simp [elemPerrs, hx0] at this ⊢; omega
+    · exact ⟨fun y hy => hI.pick.1 y (by rw [hq]; simp [hy]), hI.pick.2⟩
   | none =>
     simp only [step, hw, hq]
     have hl : s.lphase = true := by
@@ -1093,7 +1244,7 @@ theorem inv_wGet (c : Cfg) (s : State) (w : Nat) (hI : Inv c s) (h : enabled c s
     refine { npos := hI.npos, len := by simp [hI.len], np := ?_, ev := ev_set hI hw (by simp) _, outC := ?_, errC := ?_,
              lph0 := ?_, lph1 := hI.lph1,
              sorted := sortedQ_of_all_none _ hrest, pois := ?_, pills := ?_, opill := hI.opill, olast := hI.olast, q := hI.q,
-             fin := hI.fin, maxk := ?_, aband := hI.aband, drops := hI.drops }
+             fin := hI.fin, maxk := ?_, aband := hI.aband, drops := hI.drops, perrC := ?_, pick := ?_, lexcIn := hI.lexcIn, lexc0 := hI.lexc0, lexcOk := hI.lexcOk }
     · have := wsums hw (.exited true none) alive
       have := hI.np
       simp [alive] at *; omega
@@ -1121,6 +1272,11 @@ theorem inv_wGet (c : Cfg) (s : State) (w : Nat) (hI : Inv c s) (h : enabled c s
       · simp [hww] at hr
       · simp only [hww, if_false] at hr
         exact hI.maxk hm w' k' p' e' hr
+    · intro e'
+      have := hI.perrC e'
+      simp only [inSide, hq] at this ⊢
+      simp [elemPerrs] at this ⊢; omega
+    · exact ⟨fun y hy => hI.pick.1 y (by rw [hq]; simp [hy]), hI.pick.2⟩
 
 theorem inv_wCallback (c : Cfg) (s : State) (w : Nat) (hI : Inv c s) (h : enabled c s (.wCallback w) = true) :
     Inv c (step c s (.wCallback w)) := by
@@ -1138,7 +1294,7 @@ theorem inv_wCallback (c : Cfg) (s : State) (w : Nat) (hI : Inv c s) (h : enable
     refine { npos := hI.npos, len := by simp [hI.len], np := ?_, ev := ev_set hI hw (by simp) _, outC := ?_, errC := ?_,
              lph0 := hI.lph0, lph1 := hI.lph1,
              sorted := hI.sorted, pois := ?_, pills := ?_, opill := hI.opill, olast := hI.olast, q := hI.q,
-             fin := hI.fin, maxk := ?_, aband := hI.aband, drops := hI.drops }
+             fin := hI.fin, maxk := ?_, aband := hI.aband, drops := hI.drops, perrC := hI.perrC, pick := hI.pick, lexcIn := hI.lexcIn, lexc0 := hI.lexc0, lexcOk := hI.lexcOk }
     · have := wsums hw .spawned alive
       have := hI.np
       simp [alive] at *; omega
@@ -1178,7 +1334,7 @@ theorem inv_wCallback (c : Cfg) (s : State) (w : Nat) (hI : Inv c s) (h : enable
     refine { npos := hI.npos, len := by simp [hI.len], np := ?_, ev := ev_set hI hw (by simp) _, outC := ?_, errC := ?_,
              lph0 := hI.lph0, lph1 := hI.lph1,
              sorted := hI.sorted, pois := ?_, pills := ?_, opill := ?_, olast := ?_, q := ?_,
-             fin := ?_, maxk := ?_, aband := hI.aband, drops := hI.drops }
+             fin := ?_, maxk := ?_, aband := hI.aband, drops := hI.drops, perrC := hI.perrC, pick := hI.pick, lexcIn := ?_, lexc0 := hI.lexc0, lexcOk := hI.lexcOk }
     · have := wsums hw .dead alive
       have := hI.np
       simp [alive] at *; omega
@@ -1235,6 +1391,9 @@ theorem inv_wCallback (c : Cfg) (s : State) (w : Nat) (hI : Inv c s) (h : enable
       · simp [hww] at hr
       · simp only [hww, if_false] at hr
         exact hI.maxk hm w' k' p' e' hr
+    · intro hl e' he'
+      have := hI.lexcIn hl e' he'
+      simp [this]
 
 /-- the invariant is inductive -/
 theorem inv_step' (c : Cfg) (s : State) (a : Action) (hI : Inv c s) (h : enabled c s a = true) :
@@ -1288,25 +1447,68 @@ theorem mem_errs_of_pos (items : List ItemSpec) (e : Nat) (h : 0 < sumOver (fun 
         have := ih h
         simp [hy] at this ⊢; right; exact this
 
-theorem mem_allErrs_of_pos (c : Cfg) (e : Nat) (h : 0 < sumOver (fun x => x.err.toList.count e) c.items) :
-    e ∈ allErrs c := mem_errs_of_pos c.items e h
+theorem mem_perrs_of_pos (items : List ItemSpec) (e : Nat) (h : 0 < sumOver (fun x => x.perr.toList.count e) items) :
+    e ∈ items.filterMap (·.perr) := by
+  induction items with
+  | nil => simp at h
+  | cons y ys ih =>
+    simp only [sumOver_cons] at h
+    cases hy : y.perr with
+    | none =>
+      simp [hy] at h
+      have := ih h
+      simp [hy] at this ⊢; exact this
+    | some e' =>
+      by_cases he : e' = e
+      · simp [hy, he]
+      · simp [hy, he] at h
+        have := ih h
+        simp [hy] at this ⊢; right; exact this
 
-theorem allErrs_nil_iff (c : Cfg) : allErrs c = [] ↔ ∀ x ∈ c.items, x.err = none := by
+theorem mem_allErrs_of_pos (c : Cfg) (e : Nat) (h : 0 < sumOver (fun x => x.err.toList.count e) c.items) :
+    e ∈ allErrs c := by
+  unfold allErrs
+  exact List.mem_append_left _ (mem_errs_of_pos c.items e h)
+
+theorem mem_allErrs_of_perr_pos (c : Cfg) (e : Nat) (h : 0 < sumOver (fun x => x.perr.toList.count e) c.items) :
+    e ∈ allErrs c := by
+  unfold allErrs
+  exact List.mem_append_right _ (mem_perrs_of_pos c.items e h)
+
+theorem allErrs_nil_iff (c : Cfg) : allErrs c = [] ↔ ∀ x ∈ c.items, x.err = none ∧ x.perr = none := by
   unfold allErrs
   induction c.items with
   | nil => simp
   | cons y ys ih =>
+    simp only [List.append_eq_nil_iff] at ih ⊢
     cases hy : y.err with
-    | none => simp [hy, ih]
+    | none =>
+      cases hp : y.perr with
+      | none =>
+        simp only [List.filterMap_cons, hy, hp, List.mem_cons, forall_eq_or_imp, true_and, and_self]
+        exact ih
+      | some e => simp [hy, hp]
     | some e => simp [hy]
 
 theorem excs_sub {c : Cfg} {s : State} (hI : Inv c s) : ∀ e ∈ s.excs, e ∈ allErrs c := by
   intro e he
-  apply mem_allErrs_of_pos
   have := hI.errC e
   have hc : 0 < s.excs.count e := List.count_pos_iff.2 he
   simp only [errTotal] at this
-  omega
+  by_cases hpos : 0 < sumOver (fun x => x.err.toList.count e) c.items
+  · exact mem_allErrs_of_pos c e hpos
+  · apply mem_allErrs_of_perr_pos
+    apply hI.lexcOk e
+    cases hl : s.lphase with
+    | false => simp [hl] at this; omega
+    | true =>
+      simp [hl] at this
+      cases hx : s.lexc with
+      | none => simp [hx] at this; omega
+      | some e1 =>
+        by_cases h1 : e1 = e
+        · rw [h1]
+        · simp [hx, h1] at this; omega
 
 theorem recv_sub {c : Cfg} {s : State} (hI : Inv c s) (o : Nat) : s.recv.count o ≤ (allOuts c).count o := by
   rw [count_allOuts]
@@ -1326,7 +1528,7 @@ theorem finished' {c : Cfg} {s : State} (hI : Inv c s) (hd : s.main = .done) (ha
   rw [count_allOuts]; exact this.1 o
 
 theorem exactly_once' (c : Cfg) (hn : 0 < c.n) (s : State) (hr : Reachable c s) (hd : s.main = .done)
-    (hab : s.abandoned = false) (hne : ∀ x ∈ c.items, x.err = none) :
+    (hab : s.abandoned = false) (hne : ∀ x ∈ c.items, x.err = none ∧ x.perr = none) :
     ∃ outs, outcome s = .ok outs ∧ outs.Perm (allOuts c) := by
   have hI := inv_reachable' c hn s hr
   have hf := finished' hI hd hab
@@ -1341,14 +1543,16 @@ theorem exactly_once' (c : Cfg) (hn : 0 < c.n) (s : State) (hr : Reachable c s) 
   simp [outcome, hab, hex]
 
 theorem error_surfaces' (c : Cfg) (hn : 0 < c.n) (s : State) (hr : Reachable c s) (hd : s.main = .done)
-    (hab : s.abandoned = false) (x : ItemSpec) (hx : x ∈ c.items) (hxe : x.err ≠ none) :
+    (hab : s.abandoned = false) (x : ItemSpec) (hx : x ∈ c.items) (hxe : x.err ≠ none ∨ x.perr ≠ none) :
     ∃ e outs, outcome s = .raised e outs ∧ e ∈ allErrs c := by
   have hI := inv_reachable' c hn s hr
   have hf := finished' hI hd hab
   cases he : s.excs with
   | nil =>
     have := (allErrs_nil_iff c).1 (hf.1 he).2 x hx
-    exact absurd this hxe
+    rcases hxe with h | h
+    · exact absurd this.1 h
+    · exact absurd this.2 h
   | cons e es =>
     exact ⟨e, s.recv, by simp [outcome, hab, he], hf.2 e (by simp [he])⟩
 
@@ -1544,5 +1748,108 @@ theorem inproc_sublist' (items : List ItemSpec) : (inproc items).1.Sublist (item
     | none =>
       simp only [inproc, hy, List.flatMap_cons]
       exact List.Sublist.append (List.Sublist.refl _) ih
+
+
+/-! ### several calls on one object -/
+
+theorem startCall_eq_init' (o : Obj) (c : Cfg) : startCall o c = init c := rfl
+
+theorem calls_independent' (o : Obj) (calls : List (Cfg × List Action)) :
+    runHistory o calls = singleCalls calls := by
+  unfold runHistory
+  induction calls generalizing o with
+  | nil => rfl
+  | cons p rest ih =>
+    obtain ⟨c, tr⟩ := p
+    simp only [runHistoryWith, singleCalls, startCall_eq_init']
+    cases h : runTrace c (init c) tr with
+    | none => rfl
+    | some s => simp only [ih s.obj]
+
+
+def staleObj : Obj := { nprocs := 0, excs := [0] }
+def staleCfg : Cfg := { n := 1, m := 1, items := [{ id := 0, outs := [7], err := none }] }
+def staleTrace : List Action :=
+  [.wBegin 0, .mEvent, .loadTake, .loadPut, .wGet 0, .wPut 0, .wRetire 0, .wCallback 0, .cGet, .cGet, .mDone]
+
+theorem stale_exceptions_counterexample' :
+    (runTrace staleCfg (startCallStale staleObj staleCfg) staleTrace).map (fun s => (s.main, outcome s))
+        = some (Phase.done, Outcome.raised 0 [7])
+      ∧ allErrs staleCfg = [] ∧ runTrace staleCfg (init staleCfg) staleTrace = none := by decide
+
+theorem terminates' (c : Cfg) (tr : List Action) (s : State) (h : runTrace c (init c) tr = some s) :
+    tr.length ≤ mu c (init c) := by
+  have := run_bounded' c (init c) s tr h; omega
+
+theorem abandon_terminates' (c : Cfg) (s : State) (hc : s.main = .consuming) :
+    enabled c s .cAbandon = true ∧
+    (∀ s', s'.main = .fin → enabled c s' .mDone = true) ∧
+    outcome (step c (step c s .cAbandon) .mDone) = .closed s.recv := by
+  refine ⟨by simp [enabled, hc], ?_, by simp [step, outcome]⟩
+  intro s' h; simp [enabled, h]
+
+
+/-! ### put time-outs (environment extension) -/
+
+theorem no_timeouts_no_drops' (c : Cfg) (h : c.timeouts = false) (s : State) (hr : ReachableT c s) : Reachable c s := by
+  induction hr with
+  | init => exact Reachable.init
+  | @step s' a _ he ih =>
+    cases a with
+    | base a => exact Reachable.step ih he
+    | putTimeout => simp [enabledT, h] at he
+
+theorem mu_putTimeout' (c : Cfg) (s : State) (a : ActionT) (h : enabledT c s a = true) :
+    mu c (stepT c s a) < mu c s := by
+  cases a with
+  | base a => exact mu_decreases' c s a h
+  | putTimeout =>
+    simp only [enabledT, Bool.and_eq_true] at h
+    cases hi : s.infl with
+    | none => simp [hi] at h
+    | some x =>
+      simp only [stepT, hi, mu_def]
+      simp
+      omega
+
+def toItems : List ItemSpec :=
+  [{ id := 0, outs := [1], err := none }, { id := 1, outs := [2], err := none }, { id := 2, outs := [3], err := none }]
+def toCfg : Cfg := { n := 1, m := 1, items := toItems, timeouts := true }
+def toTrace : List ActionT :=
+  [.base .loadTake, .base .loadPut, .base .loadTake, .base .loadPut, .base .loadTake, .putTimeout, .base .loadFinish,
+   .base (.wBegin 0), .base .mEvent, .base (.wGet 0), .base (.wPut 0), .base (.wRetire 0), .base (.wCallback 0),
+   .base (.wBegin 0), .base (.wGet 0), .base (.wPut 0), .base (.wRetire 0), .base (.wCallback 0), .base (.wBegin 0),
+   .base .loadTake, .base .loadPut, .base (.wGet 0), .base (.wCallback 0), .base .cGet, .base .cGet, .base .cGet, .base .mDone]
+
+theorem timeouts_can_drop' :
+    (runTraceT toCfg (init toCfg) toTrace).map (fun s => (s.main, outcome s)) = some (Phase.done, Outcome.ok [1, 2])
+      ∧ allOuts toCfg = [1, 2, 3] := by decide
+
+
+/-! ### the CobaMultiprocessor wrapper -/
+
+theorem wrapper_input' {α} (it : List α) : wrapperInput it = it := by
+  cases it <;> rfl
+
+theorem wrapper_preserves_outputs' (boot : Nat → Bool) (o : Outcome) (outs : List Nat) :
+    (o = .ok outs → wrapOutcome boot o = .ok outs) ∧ (o = .closed outs → wrapOutcome boot o = .closed outs) := by
+  constructor <;> intro h <;> subst h <;> rfl
+
+theorem wrapper_error_translation' (boot : Nat → Bool) (e : Nat) (outs : List Nat) :
+    wrapOutcome boot (.raised e outs) = (if boot e then .exit e outs else .raised e outs) := rfl
+
+theorem wrapper_transparent' (boot : Nat → Bool) (c : Cfg) (hn : 0 < c.n) (s : State) (hr : Reachable c s)
+    (hb : ∀ e ∈ allErrs c, boot e = false) :
+    wrapOutcome boot (outcome s) = (match outcome s with
+      | .ok o => .ok o | .closed o => .closed o | .raised e o => .raised e o) := by
+  cases ho : outcome s with
+  | ok o => rfl
+  | closed o => rfl
+  | raised e o =>
+    have := raised_genuine' c hn s hr e o ho
+    simp [wrapOutcome, hb e this]
+
+theorem wrapper_oneshot_counterexample' :
+    wrapperInput [1, 2, 3] = [1, 2, 3] ∧ wrapperInputStale [1, 2, 3] = [2, 3] := by decide
 
 end Coba.C08
